@@ -94,6 +94,8 @@ func scenarioC05(r *Run) {
 	var victim *Wire
 	if t.Bool(1, 15, "c05.twins") {
 		b, victim = r.c05Twins(t, ent)
+	} else if t.Bool(1, 20, "c05.many") {
+		b, victim = r.c05ManySigners(t, fm, ent)
 	} else {
 		b, victim = r.damagedInput(t, fm, ent, to, 2)
 	}
@@ -195,4 +197,80 @@ func (r *Run) c05Twins(t *tape.Tape, ent *Entropy) ([]byte, *Wire) {
 	r.Op("ISSUE", "%s", w.Desc)
 	r.Fired("peer.sibling-cross-bucket-conflict")
 	return w.B, w
+}
+
+// c05ManySigners: a COSE_Sign with 17..40 signatures (a document signed by a
+// whole board), damaged somewhere: every entry is judged, wherever it sits.
+func (r *Run) c05ManySigners(t *tape.Tape, fm FaultMix, ent *Entropy) ([]byte, *Wire) {
+	n := 17 + t.Choose(24, "c05.many.n")
+	spec := &MsgSpec{Kind: refcose.KSignTagged, Payload: genPayload(t, false)}
+	spec.Layer = genLayer(t, LayerOpts{MaxExtra: 1})
+	for i := 0; i < n; i++ {
+		k := poolEd[t.Choose(len(poolEd), "c05.many.key")]
+		a := k.Alg
+		spec.Signers = append(spec.Signers, &SignerSpec{Layer: genLayer(t, LayerOpts{MaxExtra: 1, Alg: &a}), Key: k})
+	}
+	w := r.ForeignWire(t, spec, genKnobs(t), ent, false, 0, false)
+	if w == nil {
+		return nil, nil
+	}
+	w.Desc = fmt.Sprintf("COSE_Sign with %d signers", n)
+	r.Op("ISSUE", "%s", w.Desc)
+	b := w.B
+	for i, nf := 0, 1+t.Choose(2, "c05.many.nfaults"); i < nf; i++ {
+		// damage a COSE_Signature entry in the back half of the list
+		if out, kind, ok := damageSignerEntry(t, b, n/2+t.Choose(n-n/2, "c05.many.which")); ok {
+			b = out
+			r.Fired(kind)
+		} else if out, kind := fm.WireFault(t, b); kind != "" {
+			b = out
+			r.Fired(kind)
+		}
+	}
+	r.Op("CORRUPT", "%s", hexShort(b))
+	return b, w
+}
+
+// damageSignerEntry breaks entry idx of the signatures array of a COSE_Sign in
+// one of a few structural ways.
+func damageSignerEntry(t *tape.Tape, b []byte, idx int) ([]byte, string, bool) {
+	it, err := refcbor.ParseOne(b)
+	if err != nil {
+		return nil, "", false
+	}
+	root := it
+	for root.Major == refcbor.MTag {
+		root = root.Elems[0]
+	}
+	if root.Major != refcbor.MArray || len(root.Elems) != 4 || root.Elems[3].Major != refcbor.MArray || idx >= len(root.Elems[3].Elems) {
+		return nil, "", false
+	}
+	sigs := root.Elems[3]
+	e := sigs.Elems[idx]
+	kind := ""
+	switch t.Choose(5, "c05.many.damage") {
+	case 0:
+		sigs.Elems[idx], kind = refcbor.Int(7), "signer-entry.not-an-array"
+	case 1:
+		if e.Major == refcbor.MArray && len(e.Elems) == 3 {
+			e.Elems[2] = refcbor.Bstr(nil)
+		}
+		kind = "signer-entry.empty-signature"
+	case 2:
+		if e.Major == refcbor.MArray && len(e.Elems) == 3 && e.Elems[1].Major == refcbor.MMap {
+			e.Elems[1].Elems = append(e.Elems[1].Elems, refcbor.Uint(refcose.LCrit), refcbor.Array(refcbor.Int(1)))
+		}
+		kind = "signer-entry.crit-in-unprotected"
+	case 3:
+		if e.Major == refcbor.MArray && len(e.Elems) == 3 && e.Elems[1].Major == refcbor.MMap {
+			e.Elems[1].Elems = append(e.Elems[1].Elems, refcbor.Uint(4), refcbor.Bstr([]byte{1}), &refcbor.Item{Major: refcbor.MUint, Arg: 4, Width: 1}, refcbor.Bstr([]byte{2}))
+		}
+		kind = "signer-entry.duplicate-label"
+	default:
+		if e.Major == refcbor.MArray && len(e.Elems) == 3 {
+			e.Elems = e.Elems[:2]
+		}
+		kind = "signer-entry.arity"
+	}
+	return refcbor.Encode(it), kind, true
 }
